@@ -9,8 +9,11 @@ unset GOSUMDB GONOSUMDB GONOSUMCHECK 2>/dev/null || true
 # The simulator module links /repo's packages directly (replace ariga.io/atlas => /repo),
 # built with the hook guard on.
 build_sim() {
-  ( cd "$ROOT/sim" && sort -u "$REPO/go.sum" "$REPO/cmd/atlas/go.sum" > go.sum.new && { cmp -s go.sum.new go.sum || cp go.sum.new go.sum; }; rm -f go.sum.new
-    GOTOOLCHAIN=local go build -tags verif -o "$BUILD/verifsim" ./cmd/verifsim ) 2> "$BUILD/sim-build.log"
+  # go.mod says `replace ariga.io/atlas => /repo`; another repository root (VERIF_REPO: a scratch
+  # worktree used to try a change without touching /repo) is wired in through a -modfile copy.
+  sed "s#=> /repo#=> $REPO#" "$ROOT/sim/go.mod" > "$BUILD/sim.mod"
+  sort -u "$REPO/go.sum" "$REPO/cmd/atlas/go.sum" "$ROOT/sim/go.sum" > "$BUILD/sim.sum"
+  ( cd "$ROOT/sim" && GOTOOLCHAIN=local go build -modfile="$BUILD/sim.mod" -tags verif -o "$BUILD/verifsim" ./cmd/verifsim ) 2> "$BUILD/sim-build.log"
   local rc=$?
   if [ $rc -ne 0 ]; then
     echo "harness: simulator build failed (see below)" >&2; tail -n 40 "$BUILD/sim-build.log" >&2; return 2
@@ -33,7 +36,7 @@ build_seamed() {
   ( cd "$ROOT/maprw" && GOTOOLCHAIN=local go build -o "$BUILD/maprw" . ) 2> "$BUILD/maprw-build.log" || { echo "harness: maprw build failed" >&2; tail -n 20 "$BUILD/maprw-build.log" >&2; rm -rf "$scratch"; return 2; }
   ( cd "$REPO" && rsync -a --exclude '*_test.go' --exclude testdata go.mod go.sum sql schemahcl "$scratch/atlas/" ) || { rm -rf "$scratch"; return 2; }
   ( cd "$scratch/atlas" && GOTOOLCHAIN=local "$BUILD/maprw" "$scratch/atlas" "$BUILD/map-sites.json" ./sql/... ./schemahcl/... ) > "$BUILD/maprw.log" 2>&1 || { echo "harness: map-range rewrite failed" >&2; tail -n 20 "$BUILD/maprw.log" >&2; rm -rf "$scratch"; return 2; }
-  sed "s#=> /repo#=> $scratch/atlas#" "$ROOT/sim/go.mod" > "$BUILD/seamed.mod"; cp "$ROOT/sim/go.sum" "$BUILD/seamed.sum"
+  sed "s#=> /repo#=> $scratch/atlas#" "$ROOT/sim/go.mod" > "$BUILD/seamed.mod"; sort -u "$REPO/go.sum" "$REPO/cmd/atlas/go.sum" "$ROOT/sim/go.sum" > "$BUILD/seamed.sum"
   ( cd "$ROOT/sim" && GOTOOLCHAIN=local go build -modfile="$BUILD/seamed.mod" -tags "verif seamed" -o "$BUILD/verifsim-seamed" ./cmd/verifsim ) 2> "$BUILD/seamed-build.log"
   local rc=$?
   rm -rf "$scratch"
